@@ -22,6 +22,9 @@ func (c *Client) metricsInc(ctx context.Context, delta queryMetrics) {
 	if !ok {
 		return
 	}
+	// Called concurrently by sending and receiving goroutines of Do.
+	c.metricsMux.Lock()
+	defer c.metricsMux.Unlock()
 
 	v.Bytes += delta.Bytes
 	v.Rows += delta.Rows
